@@ -615,6 +615,9 @@ class Check:
                     break
             print("  (%d diverging cases in %d classes)" % (len(unlisted), len(set((d["where"], d["observed"]) for d in unlisted))))
         self.write_evidence(len(unlisted), sum(len(v) for v in listed.values()))
+        if rc == 0:
+            print("held: property=%s tier=%s  %d states in %d model runs, %d specification behaviours replayed on the code, %d recorded executions validated by the specification, %.0f s" % (
+                self.pid, self.tier, self.states, len(self.models), self.replayed, self.recorded, time.time() - self.t0))
         return rc
 
     def write_evidence(self, nviol, nknown):
